@@ -361,6 +361,11 @@ def Gen.accepts : Gen → Bool × Bool × Bool
   | .ktRadial | .ktUniform | .ktGaussian1d => (true, true, false)
   | _ => (true, true, true)
 
+/-- only these constructors have a `crop_corner` parameter -/
+def Gen.acceptsCropCorner : Gen → Bool
+  | .poisson | .ktRadial => true
+  | _ => false
+
 /-- mode of the instance `build_masking_function(name, …, mode = m)` returns -/
 def Gen.effectiveMode (g : Gen) (m : Mode) : Mode := if g.isKt then .dynamic else m
 
